@@ -22,7 +22,7 @@ PROPS = {}
 
 PROPS["C14"] = dict(
     harness="c14_tridiag", flavour="asan",
-    quick=dict(workers=16, cases=48000, min_nontrivial=200),
+    quick=dict(workers=16, cases=48000, min_nontrivial=200, budget_s=900),
     thorough=dict(workers=16, cases=2000000, min_nontrivial=2000, budget_s=3000,
                   fuzz=dict(target="f14_tridiag", runs=400000, jobs=8, max_len=2048)),
     rule="SPD (cyclic) symmetric tridiagonal systems built by construction: strictly diagonally dominant with "
@@ -49,7 +49,7 @@ NOT_APPLICABLE = {}
 
 PROPS["C16"] = dict(
     harness="c16_sparselu", flavour="asan",
-    quick=dict(workers=16, cases=12000, min_nontrivial=200),
+    quick=dict(workers=16, cases=12000, min_nontrivial=200, budget_s=900),
     thorough=dict(workers=16, cases=250000, min_nontrivial=2000, budget_s=3000,
                   fuzz=dict(target="f16_sparselu", runs=200000, jobs=8, max_len=1024)),
     rule="Square sparse matrices admitting LU without pivoting by construction: patterns banded/arrow/random density "
@@ -72,7 +72,7 @@ PROPS["C16"] = dict(
 
 PROPS["C15"] = dict(
     harness="c15_objects", flavour="asan",
-    quick=dict(workers=16, cases=112000, min_nontrivial=500),
+    quick=dict(workers=16, cases=112000, min_nontrivial=500, budget_s=900),
     thorough=dict(workers=16, cases=3000000, min_nontrivial=5000, budget_s=3000,
                   fuzz=dict(target="f15_objects", runs=100000, jobs=8, max_len=164)),
     rule="Stateful/model-based: command histories (length 0-30, whole-sequence shrinking) over a pool of 4 slots of one "
@@ -96,7 +96,7 @@ PROPS["C15"] = dict(
 
 PROPS["C17"] = dict(
     harness="c17_gridindex", flavour="asan",
-    quick=dict(workers=16, cases=80000, min_nontrivial=300),
+    quick=dict(workers=16, cases=80000, min_nontrivial=300, budget_s=900),
     thorough=dict(workers=16, cases=2000000, min_nontrivial=1500, budget_s=3000,
                   fuzz=dict(target="f17_gridindex", runs=200000, jobs=8, max_len=512)),
     rule="Three constructors: 60% PolarGrid(radii, angles[, split]), 30% the parametric constructor the solver uses (nr_exp 2..5, "
@@ -120,7 +120,7 @@ PROPS["C17"] = dict(
 
 PROPS["C18"] = dict(
     harness="c18_gridgen", flavour="asan",
-    quick=dict(workers=16, cases=40000, min_nontrivial=200),
+    quick=dict(workers=16, cases=40000, min_nontrivial=200, budget_s=900),
     thorough=dict(workers=16, cases=400000, min_nontrivial=1000, budget_s=3000,
                   fuzz=dict(target="f18_gridfiles", runs=200000, jobs=8, max_len=600)),
     rule="PolarGrid(R0,Rmax,nr_exp,ntheta_exp,refinement_radius,anisotropic_factor,divideBy2) with nr_exp 0..7, "
@@ -144,7 +144,7 @@ PROPS["C18"] = dict(
 
 PROPS["C03"] = dict(
     harness="c03_operator", flavour="rel",
-    quick=dict(workers=16, cases=32000, min_nontrivial=300),
+    quick=dict(workers=16, cases=32000, min_nontrivial=300, budget_s=900),
     thorough=dict(workers=16, cases=300000, min_nontrivial=3000, budget_s=3000),
     rule="Admissible grids nr 4..41 x ntheta 4..48 (even; plus ~2.5% grids with 10k-25k nodes), radii uniform/geometric/"
          "random-ratio/midpoint-nested with R0/Rmax 1e-8..0.5, angles uniform or non-uniform with antipodal partners, "
@@ -170,7 +170,7 @@ PROPS["C03"] = dict(
 
 PROPS["C05"] = dict(
     harness="c05_spd", flavour="rel",
-    quick=dict(workers=16, cases=24000, min_nontrivial=300),
+    quick=dict(workers=16, cases=24000, min_nontrivial=300, budget_s=900),
     thorough=dict(workers=16, cases=200000, min_nontrivial=3000, budget_s=3000),
     rule="Grids/geometries/profiles/boundary modes as C03 (level 0 only); vector pairs x,y zeroed on Dirichlet nodes from "
          "normal, smooth, unit, spikes, huge dynamic range, constant, checkerboard, origin-circle spike and 3 steps of "
@@ -197,7 +197,7 @@ PROPS["C05"] = dict(
 
 PROPS["C04"] = dict(
     harness="c04_directsolver", flavour="rel",
-    quick=dict(workers=16, cases=8000, min_nontrivial=150),
+    quick=dict(workers=16, cases=8000, min_nontrivial=150, budget_s=900),
     thorough=dict(workers=16, cases=150000, min_nontrivial=1500, budget_s=3000),
     rule="Grids from the smallest hierarchy level (nr=5, ntheta=4) to 33x40, 2% up to 49x64 (fill-in), all spacing "
          "classes, explicit and automatic splits, four geometries, seven profiles, both boundary modes; "
@@ -226,7 +226,7 @@ _SMOOTH_RULE = ("smoothing-admissible grids (ntheta in 4,8,...,64 divisible by 4
 PROPS["C06"] = dict(
     harness="c06_smoother", flavour="rel"
          " Third session: vectors scaled by 2^+-100/2^+-300 in 40% of the cases; one invariant-only case in eight on a grid of 10 000-25 000 nodes (parallel assembly path), there also give == take (1e-4) and multi-threaded == single-threaded objects; a fifth of the cases obtain the sweeps through a Level re-initialised for the other boundary mode.",
-    quick=dict(workers=16, cases=20000, min_nontrivial=300),
+    quick=dict(workers=16, cases=20000, min_nontrivial=300, budget_s=900),
     thorough=dict(workers=16, cases=100000, min_nontrivial=3000, budget_s=3000),
     rule="SmootherGive/SmootherTake on " + _SMOOTH_RULE % (2, "and for energy-norm monotonicity"),
     technique="property-based testing (rapidcheck); model-based oracle (reference zebra relaxation on the probed operator) plus residual, fixed-point and energy-norm invariants",
@@ -242,7 +242,7 @@ PROPS["C06"] = dict(
 PROPS["C07"] = dict(
     harness="c07_extrapolated_smoother", flavour="rel"
          " Third session: as C06 (scaled vectors, grids above 10 000 nodes, re-initialised Level).",
-    quick=dict(workers=16, cases=20000, min_nontrivial=300),
+    quick=dict(workers=16, cases=20000, min_nontrivial=300, budget_s=900),
     thorough=dict(workers=16, cases=100000, min_nontrivial=3000, budget_s=3000),
     rule="ExtrapolatedSmootherGive/Take on coarsenable " + _SMOOTH_RULE % (3, "(f := A x for an arbitrary x)"),
     technique="property-based testing (rapidcheck); bitwise invariance of coarse nodes, model-based oracle (reference relaxation restricted to fine-only nodes), residual and fixed-point invariants",
@@ -256,7 +256,7 @@ PROPS["C07"] = dict(
 
 PROPS["C08"] = dict(
     harness="c08_transfer", flavour="rel",
-    quick=dict(workers=16, cases=40000, min_nontrivial=300),
+    quick=dict(workers=16, cases=40000, min_nontrivial=300, budget_s=900),
     thorough=dict(workers=16, cases=200000, min_nontrivial=3000, budget_s=3000),
     rule="Fine grids that can be coarsened (nr odd 5..41, ntheta%4==0 8..64, 1% with >10000 nodes for the parallel path), "
          "half of them midpoint-nested (as the grid generator produces), half with free spacing; splits chosen "
@@ -278,7 +278,7 @@ PROPS["C08"] = dict(
 
 PROPS["C09"] = dict(
     harness="c09_fmg", flavour="rel", env={"VERIF_MAX_SHRINK_EVALS": "150"},
-    quick=dict(workers=16, cases=5600, min_nontrivial=300),
+    quick=dict(workers=16, cases=5600, min_nontrivial=300, budget_s=900),
     thorough=dict(workers=16, cases=60000, min_nontrivial=3000, budget_s=3000),
     rule="Two parts. interp (2/3): fine/coarse level pairs (nr odd 9..41, ntheta%4==0 8..64, 1% >10000 nodes), half "
          "midpoint-nested half free spacing, independent splits, threads 1,2,5,16; an arbitrary coarse vector is compared at "
@@ -303,7 +303,7 @@ PROPS["C09"] = dict(
 
 PROPS["C10"] = dict(
     harness="c10_cycles", flavour="rel", env={"VERIF_MAX_SHRINK_EVALS": "150"},
-    quick=dict(workers=16, cases=8000, min_nontrivial=300),
+    quick=dict(workers=16, cases=8000, min_nontrivial=300, budget_s=900),
     thorough=dict(workers=16, cases=80000, min_nontrivial=3000, budget_s=3000),
     rule="A GMGPolar object after setup() (shipped smooth triples, grids 9x16..65x128, L in 2..5 via maxLevels, give/take, "
          "both BC modes, threads 1,2,4); through the guarded friend accessor one of the six private cycle functions is run "
@@ -327,7 +327,7 @@ PROPS["C10"] = dict(
 
 PROPS["C13"] = dict(
     harness="c13_reuse", flavour="rel", env={"VERIF_MAX_SHRINK_EVALS": "60"},
-    quick=dict(workers=16, cases=320, min_nontrivial=40),
+    quick=dict(workers=16, cases=320, min_nontrivial=40, budget_s=900),
     thorough=dict(workers=16, cases=6000, min_nontrivial=1000, budget_s=3000),
     rule="Histories of 2-4 rounds over one GMGPolar object: each round applies a (re)drawn option set through the setters "
          "(extrapolation 0/1/2/3 with the combined mode weighted up, FMG on/off with cycle and iteration count, cycle "
@@ -350,7 +350,7 @@ PROPS["C13"] = dict(
 
 PROPS["C19"] = dict(
     harness="c19_manufactured", flavour="rel",
-    quick=dict(workers=16, cases=48000, min_nontrivial=300),
+    quick=dict(workers=16, cases=48000, min_nontrivial=300, budget_s=900),
     thorough=dict(workers=16, cases=1200000, min_nontrivial=3000, budget_s=3000),
     require_class_prefix=[("tuple_g", 66)],
     rule="Selection tuples (geometry 0..3, problem 0..3, alpha 0..3, beta 0..1) drawn uniformly and pushed through "
@@ -375,7 +375,7 @@ PROPS["C19"] = dict(
 
 PROPS["C01"] = dict(
     harness="c01_solve", flavour="rel", env={"VERIF_MAX_SHRINK_EVALS": "60"},
-    quick=dict(workers=16, cases=640, min_nontrivial=100),
+    quick=dict(workers=16, cases=640, min_nontrivial=100, budget_s=900),
     thorough=dict(workers=16, cases=16000, min_nontrivial=3000, budget_s=3300),
     rule="Full option records through the public API: all 63 smooth non-Culham triples (geometry x 7 profiles x "
          "CartesianR2/R6/PolarR6) plus the Refined problem in 10% (second half only), geometry parameters (defaults or random "
@@ -401,7 +401,7 @@ PROPS["C01"] = dict(
 
 PROPS["C02"] = dict(
     harness="c02_order", flavour="rel", max_inconclusive_fraction=0.08, env={"VERIF_MAX_SHRINK_EVALS": "24"},
-    quick=dict(workers=16, cases=160, min_nontrivial=40),
+    quick=dict(workers=16, cases=160, min_nontrivial=40, budget_s=900),
     thorough=dict(workers=16, cases=1200, min_nontrivial=300, budget_s=3300),
     rule="Triples (CartesianR2/CartesianR6/PolarR6 x Circular/Shafranov/Czarny x 7 profiles, shipped shape parameters and "
          "documented alpha_jump), both boundary modes, take / give with all cache combinations, R0/Rmax 1e-5..0.1, "
@@ -426,7 +426,7 @@ PROPS["C02"] = dict(
 
 PROPS["C20"] = dict(
     harness="c20_options", flavour="asan", env={"VERIF_MAX_SHRINK_EVALS": "100"}, extra_targets={"asan": ["gmgpolar_cli"]},
-    quick=dict(workers=16, cases=1600, min_nontrivial=300),
+    quick=dict(workers=16, cases=1600, min_nontrivial=300, budget_s=900),
     thorough=dict(workers=16, cases=30000, min_nontrivial=5000, budget_s=3300,
                   fuzz=dict(target="f20_options", runs=20000, jobs=8, max_len=128, budget_s=3000)),
     rule="Two parts. api (70%): the full setter cross product in-process under ASan/UBSan/assert: every enum including "
@@ -457,7 +457,7 @@ PROPS["C20"] = dict(
 
 PROPS["C11"] = dict(
     harness="c11_races", flavour="rel", intermittent_replays=10, env={"VERIF_MAX_SHRINK_EVALS": "8"}, extra_targets={"tsan": ["c11_tsan_driver"]}, parallel=4, model_guard="tools/check_omp_constructs.py",
-    quick=dict(workers=8, cases=480, min_nontrivial=200),
+    quick=dict(workers=8, cases=480, min_nontrivial=200, budget_s=900),
     thorough=dict(workers=4, cases=6000, min_nontrivial=2000, budget_s=3400),
     rule="(operator, shape class, thread count): operators ResidualGive/Take, SmootherGive/Take, ExtrapolatedSmootherGive/"
          "Take (two sweeps, incl. construction = matrix assembly), DirectSolverGive/TakeCustomLU (assembly + solve), "
@@ -482,7 +482,7 @@ PROPS["C11"] = dict(
 
 PROPS["C12"] = dict(
     harness="c12_repro", flavour="rel", intermittent_replays=10, env={"VERIF_MAX_SHRINK_EVALS": "100"},
-    quick=dict(workers=16, cases=6400, min_nontrivial=200),
+    quick=dict(workers=16, cases=6400, min_nontrivial=200, budget_s=900),
     thorough=dict(workers=8, cases=24000, min_nontrivial=3000, budget_s=3300),
     rule="Operators and shape classes as C11 (residual, smoothers, direct solvers, level caches, transfers below and above "
          "10000 nodes, vector kernels with n in {0,1,7,9999,10000,10001,30000}, setup()+solve() with a fixed number of cycles "
